@@ -151,7 +151,7 @@ func (s *dvSim) notifyPrefixSync(i int) bool {
 
 func c19Installer(c *h.Ctx, id string, r *rand.Rand) {
 	c.Eval(1)
-	n := 2 + r.Intn(3)
+	n := 2 + r.Intn(4)
 	s := newDvSim(c, n)
 	if s.bad != "" {
 		c.Inconclusive(s.bad)
@@ -169,6 +169,31 @@ func c19Installer(c *h.Ctx, id string, r *rand.Rand) {
 		return map[string]any{"initial_graph": fmt.Sprintf("n=%d edges=%v", n, edges), "current_graph": s.graphDesc(), "events": ev}
 	}
 	prefixes := []string{"/app/a", "/app/b", "/app/a/x", "/other"}
+	if r.Intn(2) == 0 {
+		// dense multi-homing: every router announces a random half of the prefixes, so that several
+		// prefixes are reachable through different sets of exit routers
+		for i := range s.nodes {
+			for _, ps := range prefixes {
+				if r.Intn(2) == 0 {
+					pn, _ := enc.NameFromStr(ps)
+					if !s.prefixOp(i, pn, true) {
+						c.Inconclusive(s.bad)
+						return
+					}
+				}
+			}
+		}
+		for k := 0; k < 3; k++ {
+			if !s.round(r, [2]int{-1, -1}) {
+				c.Inconclusive(s.bad)
+				return
+			}
+		}
+		c.Distinct("installer|dense-multihoming")
+		if !s.c19Check(c, id, "dense multi-homed announcements", det) {
+			return
+		}
+	}
 	nSteps := 12 + r.Intn(14)
 	for step := 0; step < nSteps; step++ {
 		what := ""
